@@ -31,7 +31,16 @@ impl VIndex {
         ensures r matches Some(e) ==> self.trees().dom().contains(*id) && self.trees()[*id] == e.pack,
                 r is None ==> !self.trees().dom().contains(*id),
     { unimplemented!() }
+    // the untyped lookup the typed ones are wrappers of (C17): by blob type and raw id
+    #[verifier::external_body]
+    pub fn get_id(&self, tpe: BlobType, id: &BlobId) -> (r: Option<IndexEntry>)
+        ensures tpe is Data ==> (r matches Some(e) ==> self.data().dom().contains(DataId(id.0)) && self.data()[DataId(id.0)] == e.pack) && (r is None ==> !self.data().dom().contains(DataId(id.0))),
+                tpe is Tree ==> (r matches Some(e) ==> self.trees().dom().contains(TreeId(id.0)) && self.trees()[TreeId(id.0)] == e.pack) && (r is None ==> !self.trees().dom().contains(TreeId(id.0))),
+    { unimplemented!() }
 }
+// BlobId::from(**id) / TreeId::from(..) / DataId::from(..): the same 32 bytes under another id type
+pub fn vBlobId_from_data(id: &DataId) -> (r: BlobId) ensures r.0 == id.0, { BlobId(id.0) }
+pub fn vBlobId_from_tree(id: &TreeId) -> (r: BlobId) ensures r.0 == id.0, { BlobId(id.0) }
 pub struct VSet<K> { pub s: Ghost<Set<K>> }
 impl<K> VSet<K> {
     pub closed spec fn view(&self) -> Set<K> { self.s@ }
